@@ -13,7 +13,7 @@ import tempfile
 
 from lib import S, observe_call
 
-GEN = ["NameCleanerParams"]
+GEN = ["NameCleanerParams", "HeaderRowParams"]
 RULE = ("streams: shapes = every CSV table with header width 0..3, 0..2 data rows of 0..4 cells (exhaustive over shapes, "
         "distinct cell labels); header = random tables 1-6 columns x 0-8 rows, ragged rows shorter and longer than the header, "
         "empty and header-only sheets, headings sampled without replacement from a pool with blanks, punctuation, leading digits, "
